@@ -572,13 +572,15 @@ End Proofs.
 
 (** *** The statement is not vacuous, and the wall-clock variant fails when the clock is set back *)
 Definition demo_world : xworld :=
-  {| x_files := [(B"/etc/localtime", Some 0); (B"/tmp/z", Some 3600)];
+  {| x_files := [(B"/etc/localtime", Some (zfixed 0)); (B"/tmp/z", Some (zfixed 3600));
+                 (B"/tmp/step", Some {| z_off := 4380; z_step := Some (2000, 1, 0, 11640) |})];
      x_rules := [(B"AAA-3", 10800); (B"BBB+5", -18000)];
      x_iana := None |}.
-Definition demo_history : list (op unit) :=
-  [SetTZ B"AAA-3"; Convert false tt; SetTZ B"BBB+5"; Advance 400000000; Convert false tt; Spawn; Convert true tt; Join;
-   Advance 700000000; Convert false tt; SetTZ B":/tmp/z"; Advance 1000000000; Convert false tt; UnsetTZ;
-   Advance 999999999; Convert false tt; Advance 1; Convert false tt].
+Definition noon : Z * Z * Z := (2020, 100, 43200).
+Definition demo_history : list (op (Z * Z * Z)) :=
+  [SetTZ B"AAA-3"; Convert false noon; SetTZ B"BBB+5"; Advance 400000000; Convert false noon; Spawn; Convert true noon; Join;
+   Advance 700000000; Convert false noon; SetTZ B":/tmp/z"; Advance 1000000000; Convert false noon; UnsetTZ;
+   Advance 999999999; Convert false noon; Advance 1; Convert false noon].
 Lemma demo_answers : forall mono,
   answers (xoracle demo_world) mono (init_state (xinit demo_world)) demo_history =
   [VInt 10800; VInt 10800; VTup [VInt (-18000)]; VInt (-18000); VInt 3600; VInt 3600; VInt 0].
@@ -591,20 +593,20 @@ Proof.
 Qed.
 
 (* wall clock stamps, clock set back by 10 s before the change: 10.5 s later the old zone is still used *)
-Definition backstep_pre : list (op unit) := [SetTZ B"AAA-3"; Convert false tt; ClockStep (-10000000000); SetTZ B"BBB+5"].
-Definition backstep_quiet : list (op unit) := [Advance 10500000000].
+Definition backstep_pre : list (op (Z * Z * Z)) := [SetTZ B"AAA-3"; Convert false noon; ClockStep (-10000000000); SetTZ B"BBB+5"].
+Definition backstep_quiet : list (op (Z * Z * Z)) := [Advance 10500000000].
 Lemma freshness_wall_clock_refuted :
   exists x pre qo local d,
     Forall (fun o => 0 <= dt_of o) (pre ++ qo) /\ Forall keeps_tz qo /\ NANOS_PER_SEC <= elapsed qo /\
     let s := exec (xoracle x) false (init_state (xinit x)) (pre ++ qo) in
     snd (step (xoracle x) false s (Convert local d)) <> Some (o_answer (xoracle x) (zone_at (xoracle x) (st_world s)) local d).
 Proof.
-  exists demo_world, backstep_pre, backstep_quiet, false, tt.
+  exists demo_world, backstep_pre, backstep_quiet, false, noon.
   split; [repeat constructor; cbn; lia|]. split; [repeat constructor|]. split; [vm_compute; discriminate|].
   vm_compute. discriminate.
 Qed.
 (* the same history with monotonic stamps is fine (instance of [freshness]) *)
 Lemma backstep_monotonic_ok :
   let s := exec (xoracle demo_world) true (init_state (xinit demo_world)) (backstep_pre ++ backstep_quiet) in
-  snd (step (xoracle demo_world) true s (Convert false tt)) = Some (VInt (-18000)).
+  snd (step (xoracle demo_world) true s (Convert false noon)) = Some (VInt (-18000)).
 Proof. vm_compute. reflexivity. Qed.
